@@ -84,7 +84,50 @@ def main():
     assert ex["tp"] == 0 and ex["sq"] == 0.0 and math.isinf(ex["sq_assd"]) and math.isnan(ex["sq_std"]) and ex["rq"] == 0.0
     ex = ref.evaluate_assignment([], 0, 0, 1)
     assert math.isnan(ex["sq"]) and math.isnan(ex["rq"])
+    ratio_order_selftest()
     print("reference model self-test: ok")
+
+
+def ratio_order_selftest(trials=4000):
+    """the C14 monitor decides "is there an order of these fragments that is a seed-then-strictly-improving process"
+    for many fragments by adding them in ascending order of inside/outside ratio after each eligible seed; here that
+    rule is compared with the exhaustive search over all orders on small random instances"""
+    import itertools
+    import random
+    from fractions import Fraction
+
+    rnd = random.Random(1)
+
+    def f(I, O, R):
+        return Fraction(I, R + O)
+
+    for _ in range(trials):
+        R = rnd.randint(3, 30)
+        frags = [(rnd.randint(0, min(5, R)), rnd.randint(0, 8)) for _ in range(rnd.randint(2, 6))]
+        frags = [x for x in frags if x[0] + x[1] > 0]
+        if sum(i for i, _ in frags) > R or len(frags) < 2:
+            continue
+        thr = Fraction(rnd.randint(0, 10), 20)
+
+        def valid(seq):
+            I, O = seq[0]
+            cur = f(I, O, R)
+            if cur < thr:
+                return False
+            for i, o in seq[1:]:
+                n = f(I + i, O + o, R)
+                if not n > cur:
+                    return False
+                I, O, cur = I + i, O + o, n
+            return True
+
+        def ratio(x):
+            return Fraction(x[0], x[1]) if x[1] else Fraction(10**18)
+
+        exhaustive = any(valid(p) for p in itertools.permutations(frags))
+        by_ratio = any(valid([frags[s]] + sorted(frags[:s] + frags[s + 1 :], key=ratio)) for s in range(len(frags)))
+        if exhaustive != by_ratio:
+            raise SystemExit("ratio-order rule disagrees with the exhaustive search: %r" % ((R, frags, thr),))
 
 
 if __name__ == "__main__":
